@@ -23,6 +23,7 @@ type PropSpec struct {
 	Exclude   []string          `json:"exclude"`   // regexps on "pkg funcKey" removed from Units
 	Kinds     []string          `json:"kinds"`     // obligation kinds that count for this property (prefix match); empty = all
 	Undecided map[string]string `json:"undecided"` // regexp on obligation name -> reason (not claimed, never counted as proved)
+	Borrow    map[string][]string `json:"borrow"`  // obligation kind prefix -> tags of other properties whose obligations of that kind count here too
 	Note      string            `json:"note"`
 }
 
@@ -140,7 +141,21 @@ func cmdCheck(args []string) {
 		}
 		return false
 	}
-	filter := func(o *Oblig) bool { return hasTag(o, *prop) && kindOK(o) }
+	filter := func(o *Oblig) bool {
+		if hasTag(o, *prop) && kindOK(o) {
+			return true
+		}
+		for k, tags := range spec.Borrow {
+			if strings.HasPrefix(o.Kind, k) {
+				for _, t := range tags {
+					if hasTag(o, t) {
+						return true
+					}
+				}
+			}
+		}
+		return false
+	}
 	timeout := 10
 	thorough := *tier == "thorough"
 	if thorough {
